@@ -118,6 +118,7 @@ type gen struct {
 	pureCache   map[*SpecFunc]bool
 	finalVals   map[*ssa.FreeVar]Val
 	spawning    bool // the call being executed is the operand of a go statement
+	donors      map[int]*donorRec // borrowed loop clauses (exec.go), per loop ordinal of the function under contract
 	known       map[string]Finding
 	hide        func(name string) bool // spec functions kept uninterpreted (lemma proofs with hide/except)
 	canaryDone  bool
